@@ -102,6 +102,227 @@ theorem rep_spawn_W (hn : 0 < s.n) (t : Tid) (ph : Nat) (hph : ph ≤ 1) (hc : c
     · exact spawnPayOf_9 _ _ hc
   rw [e, chanOf_eq s.par hn]; exact rep_procToks _ ph hph
 
+/-! ### small programs -/
+
+variable {kids : Obj → List Tid} {t : Tid}
+
+/-- a critical section of the configuration store -/
+theorem HT.cfg {p : Par} {P : TS} (e : Ev) (he : e = .wr vVip ∨ e = .rd vVip) :
+    HT (mkSpec p) kids t P [.lock oCfg, e, .unlock oCfg] (fun c i s => P c i s ∧ ¬ OneS 13 0 0 c i s) := by
+  refine HT.cons (HT.lock (rep_mtx_cfg p)) (HT.cons (Q := fun c i s => P c i s ∨ OneS 13 0 0 c i s) ?_ ?_)
+  · rcases he with rfl | rfl
+    · exact HT.wrv1 (c := 13) 0 (by decide) rfl (by tokarith)
+    · exact HT.rdv (c := 13) 0 0 (by decide) (by decide) (Or.inl rfl) (by tokarith)
+  · exact (HT.unlock (rep_mtx_cfg p) (fun _ _ _ _ _ h => Or.inr h)).post
+      (fun _ _ _ _ _ h => ⟨Or.inl h.1, h.2⟩)
+
+theorem typedS : HT (mkSpec s.par) s.kids tS EmptyS s.progS EmptyS := by
+  unfold progS
+  refine HT.seq (Q := EmptyS) (HT.seq (Q := EmptyS) ?_ ?_) ?_
+  · exact (HT.cfg _ (Or.inl rfl)).post (by toksub)
+  · apply HT.range_const; intro m _
+    refine HT.cons (HT.recv (rep_chan_cm _ m)) ?_
+    exact (HT.rdv (c := 10) m 0 (by decide) (by decide) (Or.inl rfl) (by tokarith)).post (by toksub)
+  · exact (HT.cfg _ (Or.inl rfl)).post (by toksub)
+
+theorem typedAR (j : Nat) : HT (mkSpec s.par) s.kids t EmptyS (progAR j) EmptyS := by
+  unfold progAR
+  refine HT.cons HT.start0 (HT.cons (HT.recv (rep_chan_cmpl _ j)) ?_)
+  exact (HT.rdv (c := 6) j 0 (by decide) (by decide) (Or.inl rfl) (by tokarith)).post (by toksub)
+
+theorem typedAW (hn : 0 < s.n) (hsrc : s.src = 1) (hc : clsOf t = 5) (b : Nat) :
+    HT (mkSpec s.par) s.kids t EmptyS (s.progAW b (idxOf t % s.n)) EmptyS := by
+  have hm : s.merged = true := merged_of_ne (by omega)
+  have hr : Rep (spawnPayOf s.par t) (OneS 4 (idxOf t % s.n) 0) := by
+    rw [spawnPayOf_5 _ _ hc, chanOf_eq s.par hn]; exact Rep.one (by decide) (by decide)
+  have hv : s.vSeg b (idxOf t % s.n) = mkVar 4 (idxOf t % s.n) := by
+    simp only [vSeg, hm, if_true, Nat.zero_mul, Nat.zero_add]
+  have hd : Rep ((mkSpec s.par).donePay (oWga b) t) (OneS 4 (idxOf t % s.n) 0) := by
+    show Rep ((mkSpec s.par).donePay (enc 10 b) t) _
+    rw [donePay_wga _ _ _ hc]; exact hr
+  unfold progAW; rw [hv]
+  refine HT.cons (HT.start hr) (HT.cons (HT.wrv1 (c := 4) _ (by decide) rfl (by tokarith)) ?_)
+  exact (HT.wgDone hd (by toksub)).post (by toksub)
+
+theorem typedW (hn : 0 < s.n) (b wave ph : Nat) (hph : s.phase b = ph)
+    (hc : clsOf t = 6 + ph ∨ clsOf t = 8 + ph) :
+    HT (mkSpec s.par) s.kids t EmptyS (s.progW b (idxOf t % s.n) wave) EmptyS := by
+  have hle : ph ≤ 1 := hph ▸ phase_le s b
+  have hr := rep_spawn_W s hn t ph hle hc
+  have hd : Rep ((mkSpec s.par).donePay (oWgp (2 * b + wave)) t) (ProcS (idxOf t % s.n) ph) := by
+    show Rep ((mkSpec s.par).donePay (enc 11 (2 * b + wave)) t) _
+    rw [donePay_wgp _ _ _ (by omega)]; exact hr
+  unfold progW
+  refine HT.seq (Q := ProcS (idxOf t % s.n) ph) (HT.seq (Q := ProcS (idxOf t % s.n) ph) ?_ ?_) ?_
+  · refine HT.cons (HT.start hr) (HT.cons (HT.wrv1 (c := 7) _ (by decide) rfl (by tokarith)) ?_)
+    exact (HT.rdv (c := 8) _ 0 (by decide) (by decide) (Or.inl rfl) (by tokarith)).post (by toksub)
+  · rw [hph]
+    have : ph = 0 ∨ ph = 1 := by omega
+    rcases this with rfl | rfl
+    · exact HT.refl
+    · exact HT.wrv2 (c := 8) _ (by decide) rfl (by tokarith) (by tokarith)
+  · exact (HT.wgDone hd (by toksub)).post (by toksub)
+
+/-! ### the producer / reader loop -/
+
+/-- blocks `lo+1 .. hi` of a simulated source with their segments -/
+@[c17set] def BlksS (n lo hi : Nat) : TS := fun c i s =>
+  (c = 3 ∧ lo + 1 ≤ i ∧ i ≤ hi ∧ s = 0) ∨ (c = 4 ∧ (lo + 1) * n ≤ i ∧ i < (hi + 1) * n ∧ s = 0)
+
+theorem seg_block {n i k : Nat} (h1 : n ≤ i) (h2 : i < (k + 1) * n) :
+    ∃ b, b < k ∧ (b + 1) * n ≤ i ∧ i < (b + 1) * n + n := by
+  have hn : 0 < n := by
+    cases n with
+    | zero => simp at h2
+    | succ m => omega
+  have q1 : 0 < i / n := Nat.div_pos h1 hn
+  have q2 : i / n < k + 1 := Nat.div_lt_of_lt_mul (by rw [Nat.mul_comm]; exact h2)
+  have q3 : i / n * n ≤ i := Nat.div_mul_le_self i n
+  have q4 := div_mul_add_mod i n
+  have q5 := Nat.mod_lt i hn
+  refine ⟨i / n - 1, by omega, ?_, ?_⟩
+  · have : i / n - 1 + 1 = i / n := by omega
+    rw [this]; exact q3
+  · have : i / n - 1 + 1 = i / n := by omega
+    rw [this]; omega
+
+theorem rep_blocks (p : Par) :
+    Rep ((rng p.nblk).flatMap (fun b => blockToks p (b + 1))) (BlksS p.n 0 p.nblk) :=
+  (Rep.flatMapRange (fun b => rep_blockToks p (b + 1)) p.nblk).congr (fun c i s => by
+    constructor
+    · rintro ⟨b, hb, h⟩
+      have h1 : (b + 1 + 1) * p.n = (b + 1) * p.n + p.n := Nat.succ_mul _ _
+      have h2 : (b + 1 + 1) * p.n ≤ (p.nblk + 1) * p.n := Nat.mul_le_mul_right _ (by omega)
+      have h3 : 1 * p.n ≤ (b + 1) * p.n := Nat.mul_le_mul_right _ (by omega)
+      tokarith
+    · intro h
+      simp only [BlksS] at h
+      rcases h with ⟨h1, h2, h3, h4⟩ | ⟨h1, h2, h3, h4⟩
+      · exact ⟨i - 1, by omega, Or.inl ⟨h1, by omega, h4⟩⟩
+      · obtain ⟨b, hb, hb1, hb2⟩ := seg_block (by omega) h3
+        exact ⟨b, hb, Or.inr ⟨h1, hb1, hb2, h4⟩⟩)
+
+theorem rep_spawn_P_sim (h : s.src = 0) :
+    Rep (spawnPayOf s.par tP) (fun c i s' => OneS 1 0 0 c i s' ∨ BlksS s.n 0 s.k c i s') := by
+  have hm : s.par.merged = false := merged_zero h
+  rw [spawnPayOf_2 _ _ (show clsOf tP = 2 from rfl)]
+  simp only [hm, Bool.false_eq_true, if_false, nfnTok]
+  exact Rep.cons (by decide) (by decide) (rep_blocks s.par)
+
+/-- a critical section of the frame state of an Abaco source -/
+theorem HT.fl {p : Par} {P : TS} (h : p.src = 1) (e : Ev) (he : e = .wr vNfn ∨ e = .rd vNfn) :
+    HT (mkSpec p) kids t P [.lock oFl, .wr vEtq, e, .unlock oFl] (fun c i s => P c i s ∧ ¬ FlS p.src c i s) := by
+  refine HT.cons (HT.lock (rep_mtx_fl p)) (HT.cons (Q := fun c i s => P c i s ∨ FlS p.src c i s) ?_
+    (HT.cons (Q := fun c i s => P c i s ∨ FlS p.src c i s) ?_ ?_))
+  · exact HT.wrv1 (c := 2) 0 (by decide) rfl (Or.inr ⟨h, Or.inr rfl, rfl, rfl⟩)
+  · rcases he with rfl | rfl
+    · exact HT.wrv1 (c := 1) 0 (by decide) rfl (Or.inr ⟨h, Or.inl rfl, rfl, rfl⟩)
+    · exact HT.rdv (c := 1) 0 0 (by decide) (by decide) (Or.inl rfl) (Or.inr ⟨h, Or.inl rfl, rfl, rfl⟩)
+  · exact (HT.unlock (rep_mtx_fl p) (fun _ _ _ _ _ h => Or.inr h)).post
+      (fun _ _ _ _ _ h => ⟨Or.inl h.1, h.2⟩)
+
+theorem typedP (hsrc : s.src ≤ 2) : HT (mkSpec s.par) s.kids tP EmptyS s.progP EmptyS := by
+  unfold progP
+  rcases (show s.src = 0 ∨ s.src = 1 ∨ s.src = 2 by omega) with h | h | h
+  · -- simulated source
+    have hm : s.merged = false := merged_zero h
+    refine HT.seq (Q := EmptyS) (HT.seq (Q := EmptyS) (HT.seq (Q := fun c i s' => OneS 1 0 0 c i s' ∨ BlksS s.n 0 s.k c i s')
+      ((HT.start (rep_spawn_P_sim s h)).post (by toksub)) ?_) (HT.recvC0 _)) ?_
+    · refine (HT.range (fun b c i s' => OneS 1 0 0 c i s' ∨ BlksS s.n b s.k c i s') _ s.k ?_).post (by toksub)
+      intro b hb
+      have h1 : (b + 1 + 1) * s.n = (b + 1) * s.n + s.n := Nat.succ_mul _ _
+      have h2 : (b + 1 + 1) * s.n ≤ (s.k + 1) * s.n := Nat.mul_le_mul_right _ (by omega)
+      simp only [h, BEq.rfl, if_true, vBlk, vSeg, hm, Bool.false_eq_true, if_false, vNfn, perChan]
+      refine HT.seq (Q := fun c i s' => OneS 1 0 0 c i s' ∨ BlksS s.n b s.k c i s')
+        (HT.seq (Q := fun c i s' => OneS 1 0 0 c i s' ∨ BlksS s.n b s.k c i s') ?_ ?_) ?_
+      · exact HT.cons (HT.wrv1 (c := 3) _ (by decide) rfl (by tokarith))
+          (HT.wrv1 (c := 1) _ (by decide) rfl (by tokarith))
+      · apply HT.range_const; intro i hi
+        exact HT.wrv1 (c := 4) _ (by decide) rfl (by tokarith)
+      · exact (HT.send (rep_chan_nb_sim s hm b) (by toksub)).post (by toksub)
+    · simp only [h, BEq.rfl, if_true]; exact HT.close0 rfl
+  · -- Abaco
+    refine HT.seq (Q := EmptyS) (HT.seq (Q := EmptyS) (HT.seq (Q := EmptyS) HT.start0 ?_) (HT.recvC0 _)) ?_
+    · apply HT.range_const; intro b _
+      simp only [h, Nat.reduceBEq, Bool.false_eq_true, if_false, BEq.rfl, if_true]
+      exact HT.seq (a := [.lock oFl, .wr vEtq, .rd vNfn, .unlock oFl]) (b := [.send oBufc])
+        ((HT.fl (p := s.par) h _ (Or.inr rfl)).post (by toksub)) (HT.send0 (chanPay_oBufc _))
+    · simp only [h, Nat.reduceBEq, Bool.false_eq_true, if_false]; exact HT.close0 rfl
+  · -- Lancero
+    refine HT.seq (Q := EmptyS) (HT.seq (Q := EmptyS) (HT.seq (Q := EmptyS) HT.start0 ?_) (HT.recvC0 _)) ?_
+    · apply HT.range_const; intro b _
+      simp only [h, Nat.reduceBEq, Bool.false_eq_true, if_false]
+      exact HT.send0 (chanPay_oBufc _)
+    · simp only [h, Nat.reduceBEq, Bool.false_eq_true, if_false]; exact HT.close0 rfl
+
+/-! ### block assembly (Abaco, Lancero) -/
+
+theorem rep_spawn_A (hm : s.merged = true) (hc : clsOf t = 4) : Rep (spawnPayOf s.par t) (BlkNS s.n s.src) := by
+  have hm' : s.par.merged = true := hm
+  rw [spawnPayOf_4 _ _ hc]; simp only [hm', if_true]; exact rep_blkN s.par hm'
+
+theorem spawnPay_tAW (hn : 0 < s.n) (b i : Nat) (hi : i < s.n) : spawnPayOf s.par (s.tAW b i) = [tk 4 i 0] := by
+  rw [spawnPayOf_5 _ _ (show clsOf (s.tAW b i) = 5 from clsOf_enc (by decide))]
+  unfold tAW; rw [chan_tid s hn 5 b i (by decide) hi]
+
+theorem kids_wga (hsrc : s.src = 1) (b : Nat) (hb : b < s.k) : s.kids (oWga b) = (rng s.n).map (s.tAW b) := by
+  have h1 : clsOf (oWga b) = 10 := clsOf_enc (by decide)
+  have h2 : idxOf (oWga b) = b := idxOf_enc (by decide)
+  simp [kids, h1, h2, hsrc, hb]
+
+theorem rep_wait_wga (hn : 0 < s.n) (hsrc : s.src = 1) (b : Nat) (hb : b < s.k) :
+    Rep (waitPay (mkSpec s.par) s.kids (oWga b)) (fun c i s' => c = 4 ∧ i < s.n ∧ s' = 0) := by
+  intro k
+  rw [mem_waitPay, kids_wga s hsrc b hb]
+  simp only [List.mem_map, rng, List.mem_range]
+  constructor
+  · rintro ⟨u, ⟨j, hj, rfl⟩, hk⟩
+    rw [show oWga b = enc 10 b from rfl, donePay_wga _ _ _ (show clsOf (s.tAW b j) = 5 from clsOf_enc (by decide)),
+      spawnPay_tAW s hn b j hj, List.mem_singleton] at hk
+    subst hk
+    rw [clsT_tk (by decide) (by decide), idxT_tk (by decide) (by decide), shT_tk (by decide)]
+    exact ⟨rfl, hj, rfl⟩
+  · rintro ⟨h1, h2, h3⟩
+    refine ⟨s.tAW b (idxT k), ⟨_, h2, rfl⟩, ?_⟩
+    rw [show oWga b = enc 10 b from rfl, donePay_wga _ _ _ (show clsOf (s.tAW b (idxT k)) = 5 from clsOf_enc (by decide)),
+      spawnPay_tAW s hn b _ h2, List.mem_singleton, eq_tk_iff (by decide) (by decide)]
+    exact ⟨h1, rfl, h3⟩
+
+theorem typedA (hn : 0 < s.n) (hm : s.merged = true) (hsrc : s.src ≤ 2) (hc : clsOf t = 4) (b : Nat) :
+    HT (mkSpec s.par) s.kids t EmptyS (s.progA b) EmptyS := by
+  have h0 : s.src ≠ 0 := by
+    intro h; rw [merged_zero h] at hm; cases hm
+  unfold progA
+  split
+  next hb =>
+    have hX : HT (mkSpec s.par) s.kids t EmptyS [.start, .recv oBufc, .wr (s.vBlk b)] (BlkNS s.n s.src) := by
+      simp only [vBlk, hm, if_true]
+      exact HT.cons (HT.start (rep_spawn_A s hm hc)) (HT.cons (HT.recv0 _)
+        ((HT.wrv1 (c := 3) 0 (by decide) rfl (by tokarith)).post (by toksub)))
+    have hZ : HT (mkSpec s.par) s.kids t (BlkNS s.n s.src) [.send (s.oNb b)] EmptyS :=
+      (HT.send (rep_chan_nb_merged s hm b) (by toksub)).post (by toksub)
+    refine HT.seq (HT.seq hX ?_) hZ
+    rcases (show s.src = 1 ∨ s.src = 2 by omega) with h | h
+    · simp only [h, BEq.rfl, if_true, perChan]
+      refine HT.seq (Q := fun c i s' => BlkNS s.n s.src c i s' ∧ ¬ (c = 4 ∧ i < s.n ∧ s' = 0))
+        (HT.seq (Q := BlkNS s.n s.src) ?_ ?_) ?_
+      · exact (HT.fl (p := s.par) h _ (Or.inl rfl)).post (by toksub)
+      · refine (HT.range (fun j c i s' => BlkNS s.n s.src c i s' ∧ ¬ (c = 4 ∧ i < j ∧ s' = 0)) _ s.n ?_).pre
+          (by toksub)
+        intro j hj
+        have hr : Rep ((mkSpec s.par).spawnPay (s.tAW b j)) (OneS 4 j 0) := by
+          show Rep (spawnPayOf s.par (s.tAW b j)) _
+          rw [spawnPay_tAW s hn b j hj]; exact Rep.one (by decide) (by decide)
+        exact HT.cons (HT.wgAdd _) ((HT.spawn hr (by toksub)).post (by toksub))
+      · exact (HT.wgWait (rep_wait_wga s hn h b hb)).post (by toksub)
+    · have e1 : (s.src == 1) = false := by simp [h]
+      simp only [e1, Bool.false_eq_true, if_false, perChan, vSeg, hm, if_true, Nat.zero_mul, Nat.zero_add]
+      refine HT.cons (Q := BlkNS s.n s.src) (HT.wrv1 (c := 1) 0 (by decide) rfl (by tokarith)) ?_
+      apply HT.range_const; intro i hi
+      exact HT.wrv1 (c := 4) _ (by decide) rfl (by tokarith)
+  next hb =>
+    exact HT.cons HT.start0 (HT.cons (HT.recvC0 _) (HT.close0 rfl))
+
 end sched
 
 end DastardV.C17
